@@ -61,7 +61,9 @@ REQUIRE = {
     "server_closes_judged": 300,
     "hio_server_sockets_checked": 1500,
     "at_close.tls-handshake-pending": 40,
-    "at_close.replaced": 40,
+    "remoters_left_tables.replaced-in-ixes": 40,
+    "remoters_left_tables.replaced-in-cxes": 10,
+    "accepted_reset_before_service": 40,
     "at_close.cutoff-in-ixes": 40,
     "at_close.live-in-ixes": 100,
     "client_ops_judged": 1000,
@@ -218,6 +220,8 @@ FIXED = [
     {"kind": "server", "tls": True, "ops": [["conn", 0, 0], ["service", 1], ["conn", 1, 0], ["service", 1], ["srvclose"]]},
     {"kind": "server", "tls": True, "ops": [["stall", 0, 0, "5"], ["service", 1], ["stall", 1, 0, "5"], ["service", 1], ["srvclose"]]},
     {"kind": "server", "tls": True, "ops": [["garbage", 0, None], ["service", 2], ["srvclose"]]},
+    {"kind": "server", "tls": False, "ops": [["conn", 0, None], ["abort", 0], ["service", 1], ["srvclose"]]},
+    {"kind": "server", "tls": True, "ops": [["stall", 0, None, "none"], ["abort", 0], ["service", 1], ["srvclose"]]},
     {"kind": "client", "tls": False, "reconnectable": False, "tymeout": 0.0, "peer_tls": "handshake",
      "ops": [["listen", False], ["connect", 3], ["listen", True], ["connect", 3], ["peer_close"], ["service", 2],
              ["app_reconnect"], ["connect", 3], ["close"]]},
@@ -232,7 +236,7 @@ def cases(tier, seed, shard, nshards):
         if i % nshards == shard:
             yield c
     rng = random.Random(f"{seed}:C11:{shard}")
-    n = (4800 if tier == "quick" else 80000) // nshards
+    n = (2800 if tier == "quick" else 48000) // nshards
     maxops = 12 if tier == "quick" else 18
     for i in range(n):
         r = rng.random()
@@ -258,6 +262,7 @@ def setup(ctx):
         orig = serving.Remoter.__init__
 
         def __init__(self, *pa, **kwa):
+            self._vf_cs0 = id(kwa.get("cs", pa[2] if len(pa) > 2 else None))   # the accepted socket it was given
             try:
                 return orig(self, *pa, **kwa)
             finally:
@@ -347,6 +352,7 @@ class ServerRun:
                     s.bind((HOST, self._srcport(src)))
                 s.settimeout(5.0)
                 s.connect((HOST, self.port))
+                s.setsockopt(socket.IPPROTO_TCP, socket.TCP_NODELAY, 1)
                 s.setblocking(False)
             except OSError as ex:
                 s.close()
@@ -494,6 +500,13 @@ class ServerRun:
                 self.server.removeIx(ca)
         self.scan()
 
+    def wrapped_or_owned(self):
+        """ids of accepted plain sockets that some Remoter took (as .cs, or detached by its TLS wrap)"""
+        ids = set()
+        for r in self.remoters:
+            ids.add(r._vf_cs0)
+        return ids
+
     def states(self):
         """what there is to close right now (state labels, for coverage and the case signature)"""
         self.scan()
@@ -530,6 +543,8 @@ class ServerRun:
             ctx.count("hio_server_sockets_checked")
             if e.kind != "new":
                 self.accepted_checked += 1
+            if e.kind == "accept" and id(e.sock) not in self.wrapped_or_owned():
+                ctx.count("accepted_reset_before_service")
             if not e.open:
                 continue
             e.reported = True
@@ -655,6 +670,7 @@ class ClientRun:
                 except OSError:
                     break
                 self.led.mine(s, role="accepted")
+                s.setsockopt(socket.IPPROTO_TCP, socket.TCP_NODELAY, 1)
                 s.setblocking(False)
                 a = {"sock": s, "tls": False, "done": not self.tls}
                 if self.tls and self.case["peer_tls"] == "handshake":
